@@ -396,15 +396,21 @@ Proof.
       { rewrite skipn_length. unfold full. rewrite app_length. reflexivity. }
       set (t := Nat.min 6 (max_code_len cands - dpt)) in *.
       assert (Ht : (1 <= t <= length (skipn dpt full))%nat) by lia.
-      destruct (Nat.eqb (length (skipn dpt full)) 0) eqn:Ea; [apply Nat.eqb_eq in Ea; lia|].
-      set (j := N.to_nat ((tb - Nlen (skipn dpt full)) mod 64)). clearbody j.
-      assert (Hbr : (if Nat.leb (t + j) 64 then Nat.min t (length (skipn dpt full)) else t) = t).
+      assert (Ht6 : (t <= 6)%nat) by lia.
+      assert (Ha70 : length (firstn 70 (skipn dpt full)) = Nat.min 70 (length (skipn dpt full)))
+        by apply firstn_length.
+      set (a := length (firstn 70 (skipn dpt full))) in *.
+      destruct (Nat.eqb a 0) eqn:Ea; [apply Nat.eqb_eq in Ea; lia|].
+      set (j := if Nat.ltb a 70 then N.to_nat ((tb - Nlen (skipn dpt full)) mod 64) else O).
+      clearbody j.
+      assert (Hbr : (if Nat.leb (t + j) 64 then Nat.min t a else t) = t).
       { destruct (Nat.leb (t + j) 64); [lia|reflexivity]. }
-      assert (Hchk : negb (Nat.leb (t + j) 64) && negb (Nat.ltb (64 - j) (length (skipn dpt full))) = false).
+      assert (Hchk : negb (Nat.leb (t + j) 64) && negb (Nat.ltb (64 - j) a) = false).
       { destruct (Nat.leb (t + j) 64) eqn:E1; [reflexivity|]. apply Nat.leb_gt in E1.
         cbn [negb andb]. apply negb_false_iff. apply Nat.ltb_lt. lia. }
       rewrite Hchk, Hbr, Nat.eqb_refl.
-      rewrite firstn_app_le by lia. rewrite skipn_skipn'.
+      rewrite firstn_app_le by (rewrite firstn_length; lia).
+      rewrite firstn_firstn, Nat.min_id. rewrite skipn_skipn'.
       apply IH.
       * apply filter_In. split; [exact Hin|].
         apply compatible_firstn. apply compatible_skipn. apply is_prefix_compatible.
@@ -420,9 +426,10 @@ Qed.
 
 (* the key lemma: enough real bits after the code -> the real search finds p, for every tb.
    "Enough" = min 6 (longest code - this code): at least 6 bits, or fewer when no stride
-   can reach further than the longest code.  198 = 6 * 33 (the fuel of read_code_at). *)
+   can reach further than the longest code.  Codes longer than 40 bits are rejected by
+   read_code_at's bounds check (and 40 <= 6 * 33, the reach of the fuel). *)
 Theorem read_code_at_enough : forall tb ps p s,
-  table_ok ps = true -> (max_code_len ps <= 198)%nat -> In p ps ->
+  table_ok ps = true -> (max_code_len ps <= 40)%nat -> In p ps ->
   (Nat.min 6 (max_code_len ps - length (p_code p)) <= length s)%nat ->
   read_code_at tb ps (p_code p ++ s) = Ok (p, s).
 Proof.
@@ -430,15 +437,17 @@ Proof.
   pose proof (tsearch_ok tb p s 33 ps 0 Hin (table_ok_pairwise ps Hok)) as T.
   cbn [skipn firstn] in T. rewrite T.
   - cbn [bind]. rewrite skipn_length_app.
-    replace (Nat.leb (length (p_code p)) (length (p_code p ++ s))) with true; [reflexivity|].
-    symmetry. apply Nat.leb_le. rewrite app_length. lia.
+    replace (Nat.leb (length (p_code p)) (length (firstn 40 (p_code p ++ s)))) with true;
+      [reflexivity|].
+    symmetry. apply Nat.leb_le. rewrite firstn_length, app_length.
+    pose proof (max_code_len_In ps p Hin). lia.
   - apply Forall_forall. intros q _. apply compatible_nil_r.
   - lia.
   - exact Hen.
 Qed.
 
 Corollary read_code_at_6 : forall tb ps p s,
-  table_ok ps = true -> (max_code_len ps <= 198)%nat -> In p ps -> (6 <= length s)%nat ->
+  table_ok ps = true -> (max_code_len ps <= 40)%nat -> In p ps -> (6 <= length s)%nat ->
   read_code_at tb ps (p_code p ++ s) = Ok (p, s).
 Proof. intros. apply read_code_at_enough; try assumption. lia. Qed.
 
@@ -447,10 +456,11 @@ Definition wf_prefix (w : N) (p : prefix) : Prop :=
   p_gcd p >= 1 /\ p_lower p <= p_upper p /\ p_upper p <= umax w /\
   (forall j, p_jump p = Some j -> j <= 24).
 
-(* 198 = 6 * 33: the stride search of read_code_at (fuel 33, strides of 6) can reach every
-   code.  Every parsed table satisfies it (5-bit code length field: lengths <= 31). *)
+(* code lengths <= 40: read_code_at's bounds check looks at no more than 40 bits (and the
+   stride search, fuel 33 with strides of 6, reaches them).  Every parsed table satisfies
+   it (5-bit code length field: lengths <= 31). *)
 Definition wf_table (w : N) (ps : list prefix) : Prop :=
-  table_ok ps = true /\ Forall (wf_prefix w) ps /\ (max_code_len ps <= 198)%nat.
+  table_ok ps = true /\ Forall (wf_prefix w) ps /\ (max_code_len ps <= 40)%nat.
 
 Lemma wf_table_of_code_lens w ps :
   table_ok ps = true -> Forall (wf_prefix w) ps ->
